@@ -52,6 +52,13 @@ func (s SchemaSchema) applyNamespace() {
 		for _, output := range step.OutputsValue {
 			output.Schema().ApplySelf()
 		}
+		// The data schemas of signals are scopes of their own and need linking just like inputs and outputs.
+		for _, signal := range step.SignalHandlersValue {
+			signal.DataSchemaValue.ApplySelf()
+		}
+		for _, signal := range step.SignalEmittersValue {
+			signal.DataSchemaValue.ApplySelf()
+		}
 	}
 }
 
